@@ -134,6 +134,9 @@ pub(crate) fn on_remove_worker(
     for task in task_map.tasks_mut() {
         match &task.state {
             TaskRuntimeState::Retracting { worker_id: w_id } if worker_id == *w_id => {
+                // The lost worker may have started the task before the retract request
+                // reached it (its RunningPrefilled message is lost with the connection)
+                task.increment_instance_id();
                 if let Some((target_id, rv_id)) = scheduler_state.redirects.remove(&task.id) {
                     task.state = TaskRuntimeState::Assigned {
                         worker_id: target_id,
